@@ -1,0 +1,86 @@
+//go:build verif
+
+package traversal
+
+// Read-only observation hook for the verification harness (/verif). Compiled only with the
+// build tag `verif`; adds no behaviour to the package.
+
+import (
+	"fmt"
+	"reflect"
+	"sort"
+
+	k_nearest_nodes "github.com/anacrolix/dht/v2/k-nearest-nodes"
+	"github.com/anacrolix/dht/v2/types"
+)
+
+type VerifCandidate struct {
+	Addr string // hex(ip bytes):port, the address form as reported (4 or 16 bytes)
+	Id   string // 40 hex digits, or "-" when unknown
+}
+
+type VerifClosest struct {
+	Addr string
+	Id   string
+	Data string // fmt.Sprint of the data value
+}
+
+type VerifSnap struct {
+	Outstanding  int
+	UnqueriedLen int
+	// Frontier in the container's own order (closest first).
+	Unqueried []VerifCandidate
+	// Addresses marked queried (AddrPort.String() form), sorted.
+	Queried []string
+	// Closest set in container order.
+	Closest  []VerifClosest
+	Stopping bool
+	Stopped  bool
+	// The broadcast channel of op.cond has been taken (Signaled()) since the last Broadcast():
+	// whoever waits on the condition has seen the current state. True when it cannot be told.
+	CondArmed bool
+}
+
+func verifAddr(a types.AddrMaybeId) string {
+	return fmt.Sprintf("%x:%d", a.Addr.Addr().AsSlice(), a.Addr.Port())
+}
+
+// VerifSnapshot returns a consistent copy of the operation's state, taken under op.mu.
+func (op *Operation) VerifSnapshot() (s VerifSnap) {
+	op.mu.Lock()
+	defer op.mu.Unlock()
+	s.Outstanding = op.outstanding
+	s.UnqueriedLen = op.unqueried.Len()
+	// The container is persistent: walking a copy does not disturb op.unqueried.
+	u := op.unqueried
+	for u.Len() > 0 {
+		x := u.Next()
+		c := VerifCandidate{Addr: verifAddr(x), Id: "-"}
+		if x.Id.Ok {
+			b := x.Id.Value.AsByteArray()
+			c.Id = fmt.Sprintf("%x", b[:])
+		}
+		s.Unqueried = append(s.Unqueried, c)
+		u = u.Delete(x)
+	}
+	for a := range op.queried {
+		s.Queried = append(s.Queried, string(a))
+	}
+	sort.Strings(s.Queried)
+	op.closest.Range(func(e k_nearest_nodes.Elem) {
+		s.Closest = append(s.Closest, VerifClosest{
+			Addr: fmt.Sprintf("%x:%d", e.Addr.Addr().AsSlice(), e.Addr.Port()),
+			Id:   fmt.Sprintf("%x", e.ID[:]),
+			Data: fmt.Sprint(e.Data),
+		})
+	})
+	s.Stopping = op.stopping.IsSet()
+	s.Stopped = op.stopped.IsSet()
+	s.CondArmed = true
+	// Every Broadcast()/Signaled() call of this package happens under op.mu, so reading the
+	// channel field here does not race with them.
+	if f := reflect.ValueOf(&op.cond).Elem().FieldByName("ch"); f.IsValid() && f.Kind() == reflect.Chan {
+		s.CondArmed = !f.IsNil()
+	}
+	return
+}
